@@ -78,7 +78,7 @@ if TYPE_CHECKING:
     from .object_format import ObjectFormat
 
 from .errors import NotTreeError
-from .file import GitFile, SharedPerm, _GitFile, adjust_shared_perm
+from .file import FileLocked, GitFile, SharedPerm, _GitFile, adjust_shared_perm
 from .midx import MultiPackIndex, load_midx
 from .objects import (
     DEFAULT_LOOSE_OBJECT_SIZE_LIMIT,
@@ -2212,16 +2212,27 @@ class DiskObjectStore(PackBasedObjectStore):
         os.rename(path, target_pack_path)
 
         # Write the index.
-        with GitFile(
-            target_index_path,
-            "wb",
-            mask=PACK_MODE,
-            fsync=self.fsync_object_files,
-            shared_perm=self.shared_perm,
-        ) as index_file:
-            write_pack_index(
-                index_file, entries, pack_sha, version=self.pack_index_version
-            )
+        try:
+            with GitFile(
+                target_index_path,
+                "wb",
+                mask=PACK_MODE,
+                fsync=self.fsync_object_files,
+                shared_perm=self.shared_perm,
+            ) as index_file:
+                write_pack_index(
+                    index_file, entries, pack_sha, version=self.pack_index_version
+                )
+        except FileLocked:
+            # Somebody else is writing the index of this very pack; the file
+            # is theirs as much as ours.
+            raise
+        except BaseException:
+            # Without its index the pack that was just renamed into place is
+            # of no use to anyone; do not leave it behind.
+            with suppress(FileNotFoundError):
+                os.remove(target_pack_path)
+            raise
 
         # Generate bitmap if configured and refs are available
         if self.pack_write_bitmaps and refs:
